@@ -41,6 +41,12 @@ def MPData.penalty (d : MPData) (x : Vec) : Rat :=
 def MPData.feasibleB (d : MPData) (x : Vec) : Bool :=
   (List.range d.m).all (fun r => d.rowVal x r = d.bvec r) && decide (quad d.n d.Rmat x = 0)
 
+/-- `test_feasibility(x, A_eq, b_eq, Q_eq, r_eq)` of `vrpqubo/test_feasibility.py` on the constraint data of a formulation
+    (`r_eq = 0`): which linear rows are violated, the value `xᵀ Q_eq x − r_eq`, and the number of stored entries of `Q_eq`
+    (distinct positions; duplicates are summed by scipy) -/
+def MPData.testFeasibility (d : MPData) (x : Vec) : List Bool × Rat × Nat :=
+  ((List.range d.m).map (fun r => decide (d.rowVal x r ≠ d.bvec r)), quad d.n d.Rmat x, d.R.eraseDups.length)
+
 /-- `get_qubo`: `Q = ρ (R + AᵀA − 2 diag(Aᵀb)) [+ Q_obj + diag c]`, `k = ρ bᵀb` -/
 def MPData.quboQ (d : MPData) (rho : Rat) (feas : Bool) : Mat := fun i j =>
   rho * (d.Rmat i j + sumTo d.m (fun r => d.Amat r i * d.Amat r j)
